@@ -19,12 +19,12 @@ Import ListNotations.
 From Flocq Require Import Core.Core IEEE754.BinarySingleNaN IEEE754.Binary IEEE754.Bits.
 Require Import Selen.Model.Prelude Selen.Model.Dom.
 Require Import Selen.Model.B64 Selen.Model.FloatInterval Selen.Model.CtxFloat Selen.Model.FloatStore Selen.Model.FloatProps Selen.Model.FloatSearch Selen.Model.FloatDispatch.
-Require Import Selen.Proofs.B64Facts Selen.Proofs.FloatIntervalProofs Selen.Proofs.FloatPropsProofs.
+Require Import Selen.Proofs.B64Facts Selen.Proofs.FloatIntervalProofs Selen.Proofs.FloatPropsProofs Selen.Proofs.FloatArithProofs.
 
 (* ---------------------------------------------------------------- mixed_ints_exact *)
 (* For every mode (solve / minimize / maximize), every fuel, every model built from the propagator vocabulary of
    Model/FloatProps.v (FloatLinEq/Le/Ne and their reified forms, LessThanOrEquals / Eq over Var / Val / Opposite / Next views,
-   IntLinLe on mixed stores) plus whatever the search itself posts (branching and objective propagators): every solution the
+   IntLinLe on mixed stores, Add / Sub over such views) plus whatever the search itself posts (branching and objective propagators): every solution the
    search reports gives every INTEGER variable an integer value that is a member of the domain it was declared with. *)
 Theorem mixed_ints_exact : forall m maxsols fuel budget ps s sol v d,
   Forall fvocab ps -> In sol (fs_sols (fsearch m maxsols fuel budget ps s)) ->
@@ -61,6 +61,61 @@ Theorem float_values_in_bounds : forall l i i' evs, wf_b i = true ->
   (R_ (imin i) <= R_ (imin i') /\ R_ (imin i') <= R_ (imax i))%R /\ istep i' = istep i.
 Proof. intros l i i' evs W H R. destruct (float_value_in_declared_bounds l i i' evs W H R) as (A & B & C). auto. Qed.
 Print Assumptions float_values_in_bounds.
+
+(* ---------------------------------------------------------------- Add / Sub on float and mixed operands *)
+(* Model: Model/FloatProps.v prune_fadd (props/add.rs:33-45; Sub = Add over Opposite, props/mod.rs:543-547), tied bit for bit by
+   family fprop_exact (kinds `add`, `sub`).  mk_fadd / mk_fsub belong to the vocabulary fvocab, so mixed_ints_exact above covers
+   models that contain them: an integer operand or result of a float addition keeps an integer value of its declared domain. *)
+Theorem float_add_ints_only_shrink : forall x y s c c', prune_fadd x y s c = Some c' -> store_ile (fst c') (fst c).
+Proof. exact (fun x y s => prune_fadd_isafe x y s). Qed.
+Print Assumptions float_add_ints_only_shrink.
+
+(* contracting: prune_fadd_g is prune_fadd with every setter call guarded by "a float variable receives a float bound inside
+   Magn of its current interval" (it answers None otherwise).  Whenever the guarded run succeeds it IS the run of the model, and
+   no variable gained a value: integer domains shrink, float intervals keep their step and do not widen (nw_store). *)
+Theorem float_add_contracting : forall x y s c c', prune_fadd_g x y s c = Some c' ->
+  prune_fadd x y s c = Some c' /\ nw_store (fst c) (fst c').
+Proof. exact float_add_contracting_main. Qed.
+Print Assumptions float_add_contracting.
+Theorem float_sub_contracting : forall x y s c c', prune_fadd_g x (FOpp y) s c = Some c' ->
+  fprune (mk_fsub x y s) c = Some c' /\ nw_store (fst c) (fst c').
+Proof. intros x y s. exact (float_add_contracting_main x (FOpp y) s). Qed.
+Print Assumptions float_sub_contracting.
+
+(* fixpoint within tolerance (the float_add_ analogue of the planned float_lin_le_fixpoint_within_tol).  On a context that the two
+   forward calls of Add leave unchanged -- s.try_set_min(lo), s.try_set_max(hi) with lo = x.min + y.min, hi = x.max + y.max as
+   computed in binary64 -- and with none of the code's intermediate values overflowing:
+     lo <= RN(s.min + step/2)   or  |RN(lo - s.min)| < ptol(s.max)   or  RN(lo - s.max) <= ptol(s.max)
+     hi >= RN(s.max - step/2)   or  |RN(hi - s.max)| < ptol(s.min)   or  RN(s.min - hi) <= ptol(s.min)
+   (ptol(b) = max(3*step, 1e-5*|b|) in binary64, ctx_ptol; RN(..) are the code's own roundings, here the B2R of the f64 results).
+   With x.min + y.min <= x + y <= x.max + y.max and s.max - s.min < 3/2 step this is the tolerance
+   3/2*step*[number of float operands] + 3/2*step + P(s) the check's judge uses for add / sub (vlib/fmodel.py). *)
+Theorem float_add_fixpoint_within_tol : forall x y s st ev i lo hi,
+  fget st s = VF i -> wf i ->
+  val_add (fv_min x st) (fv_min y st) = VlF lo -> val_add (fv_max x st) (fv_max y st) = VlF hi ->
+  xset_min s (VlF lo) (st, ev) = Some (st, ev) -> xset_max s (VlF hi) (st, ev) = Some (st, ev) ->
+  fin lo -> fin hi ->
+  fin (fadd (imin i) (ctx_tol i)) -> fin (fsub lo (imin i)) -> fin (fsub lo (imax i)) -> fin (ctx_ptol i (imax i)) ->
+  fin (fsub (imax i) (ctx_tol i)) -> fin (fsub hi (imax i)) -> fin (fsub (imin i) hi) -> fin (ctx_ptol i (imin i)) ->
+  ((R_ lo <= R_ (fadd (imin i) (ctx_tol i)) \/ Rabs (R_ (fsub lo (imin i))) < R_ (ctx_ptol i (imax i)) \/
+     R_ (fsub lo (imax i)) <= R_ (ctx_ptol i (imax i))) /\
+   (R_ (fsub (imax i) (ctx_tol i)) <= R_ hi \/ Rabs (R_ (fsub hi (imax i))) < R_ (ctx_ptol i (imin i)) \/
+     R_ (fsub (imin i) hi) <= R_ (ctx_ptol i (imin i))))%R.
+Proof. exact float_add_fixpoint_within_tol_main. Qed.
+Print Assumptions float_add_fixpoint_within_tol.
+(* ... and every successful run of Add begins with exactly these two calls *)
+Theorem float_add_forward_calls : forall x y s c c', prune_fadd x y s c = Some c' ->
+  exists c1 c2, xset_min s (val_add (fv_min x (fst c)) (fv_min y (fst c))) c = Some c1 /\
+                xset_max s (val_add (fv_max x (fst c1)) (fv_max y (fst c1))) c1 = Some c2.
+Proof. exact prune_fadd_forward. Qed.
+Print Assumptions float_add_forward_calls.
+(* non-vacuity of the guard: x in [1,2], y in [0.5,1], s in [0,10], step 0.25 *)
+Example float_add_guard_inhabited :
+  obs_fctx (prune_fadd_g (FVar 0) (FVar 1) 2 (w_add_store, [])) =
+    Some ([[0x3ff0000000000000; 0x4000000000000000]; [0x3fe0000000000000; 0x3ff0000000000000]; [0x3ff8000000000000; 0x4008000000000000]]%Z, [2; 2]%nat) /\
+  obs_fctx (prune_fadd_g (FVar 0) (FOpp (FVar 1)) 2 (w_add_store, [])) =
+    Some ([[0x3ff0000000000000; 0x4000000000000000]; [0x3fe0000000000000; 0x3ff0000000000000]; [0; 0x3ff8000000000000]]%Z, [2]%nat).
+Proof. exact float_add_guard_inhabited_ok. Qed.
 
 (* ---------------------------------------------------------------- refutations (closed witnesses / general no-op lemmas) *)
 (* float_lowering_covers (after the repair): a linear constraint AST that ranges over at least one float variable is
